@@ -149,6 +149,14 @@ deriving Repr
 def batchDebit (fs : FeeSchedule) (o : Order) (b : BatchFills) : Int :=
   (b.fills.map (matchDebit fs o)).sum + (estimateTraderFee b.fills.length b.feeRate b.ver : Int)
 
+def fillsUnits (fl : List Fill) : Nat := (fl.map (·.units)).sum
+/-- units filled over a sequence of batches -/
+def totalUnits (bs : List BatchFills) : Nat := (bs.map (fun b => fillsUnits b.fills)).sum
+/-- number of matches (= channels) over a sequence of batches -/
+def totalFills (bs : List BatchFills) : Nat := (bs.map (fun b => b.fills.length)).sum
+/-- what the verified batches debit from the account for this order over a sequence of batches -/
+def totalDebit (fs : FeeSchedule) (o : Order) (bs : List BatchFills) : Int := (bs.map (batchDebit fs o)).sum
+
 /-- single match, one channel, one batch -/
 def singleDebit (fs : FeeSchedule) (o : Order) (ver feeRate : Nat) (f : Fill) : Int :=
   matchDebit fs o f + (estimateTraderFee 1 feeRate ver : Int)
@@ -219,15 +227,20 @@ def availableBalance (fs : FeeSchedule) (orders : List Order) (acct : Account) :
 /-- largest number of matches the reserve is computed for -/
 def maxMatches (o : Order) : Nat := o.unitsUnfulfilled / o.minUnitsMatch
 
-/-- Box + premium guard.  Inside it every intermediate of `ReservedValue` is below 2^63 in absolute value, every
+/-- premium-magnitude guard: the exact premium of the whole unfilled amount (plus the self balances of all
+    matches) at the order's own rate is at most 2^48 sat, so that the accumulated float error stays below 1/2 sat -/
+def premiumGuard (o : Order) : Bool :=
+  decide ((toSatoshis o.unitsUnfulfilled + maxMatches o * o.selfChanBalance) * o.fixedRate * o.leaseDuration
+            ≤ 2 ^ 48 * feeRateTotalParts)
+
+/-- Box + premium guards.  Inside it every intermediate of `ReservedValue` is below 2^63 in absolute value, every
     float premium is below 2^50, and `float64(amt)` is exact. -/
 def inDomain (fs : FeeSchedule) (o : Order) : Bool :=
   decide (o.unitsUnfulfilled ≤ 10 ^ 7) && decide (o.minUnitsMatch ≤ 10 ^ 7) && decide (o.units ≤ 10 ^ 7) &&
   decide (o.amt ≤ 10 ^ 12) &&
   decide (o.selfChanBalance ≤ 10 ^ 11) && decide (fs.baseFee ≤ 10 ^ 9) && decide (fs.feeRate ≤ 10 ^ 6) &&
   decide (o.maxBatchFeeRate ≤ 10 ^ 8) && decide (o.fixedRate < 2 ^ 32) && decide (o.leaseDuration < 2 ^ 32) &&
-  decide ((toSatoshis o.unitsUnfulfilled + maxMatches o * o.selfChanBalance) * o.fixedRate * o.leaseDuration
-            ≤ 2 ^ 48 * feeRateTotalParts) &&
+  premiumGuard o &&
   decide ((toSatoshis o.unitsUnfulfilled + 2 * toSatoshis o.minUnitsMatch + o.selfChanBalance) * o.fixedRate * o.leaseDuration
             ≤ 2 ^ 48 * feeRateTotalParts)
 
